@@ -518,6 +518,11 @@ def eq(fr, l, r, node):
 def getattr_(fr, base, attr, node):
     I = fr.I
     repo = I.repo
+    if isinstance(base, AFin):
+        try:
+            base = fr.to_int(base)
+        except Abort:
+            return I.opaque(f"attr {attr} of a finite function")
     if isinstance(base, AOpq):
         if attr in ("__name__", "__class__", "__qualname__"):
             return I.opaque("class name", notnone=True)
@@ -602,6 +607,8 @@ def getattr_(fr, base, attr, node):
         m = repo.find_method(ci, attr)
         if m is not None:
             return FuncRef(m, ci)
+        if attr in ci.nested:
+            return ClassRef(ci.nested[attr])
         if attr == "__name__":
             return ci.name
         raise PathRaise("AttributeError", f"{ci.name}.{attr}")
